@@ -17,6 +17,12 @@ pub assume_specification [RevocationRequest::unpack] (r: RevocationRequest) -> (
 /// the parent's own name for the class the child calls `name_in_child` (class-name mapping; iterator chain, assumed)
 pub uninterp spec fn parent_name(c: ChildDetails, name_in_child: ResourceClassName) -> ResourceClassName;
 pub open spec fn key_in_use(c: ChildDetails, k: KeyIdentifier) -> bool { c.used_keys@.contains_key(k) && c.used_keys@[k] is InUse }
+/// the key has a certificate in THIS class of the parent (finding F12: in use in some class is not enough)
+pub open spec fn key_in_use_under(c: ChildDetails, k: KeyIdentifier, rcn: ResourceClassName) -> bool {
+    c.used_keys@.contains_key(k) && c.used_keys@[k] == UsedKeyState::InUse(rcn)
+}
+/// ASSUMED (std): slice contains
+pub assume_specification<T: PartialEq> [<[T]>::contains] (s: &[T], x: &T) -> (r: bool) ensures r == s@.contains(*x);
 pub uninterp spec fn rc_issued(rc: ResourceClass, ki: KeyIdentifier) -> Option<IssuedCertificate>;
 impl ResourceClass {
     #[verifier::external_body]
@@ -50,6 +56,9 @@ impl ObjectName { pub fn from_key(_ki: &KeyIdentifier, _extension: &str) -> Self
     U.impl('impl ChildDetails', [
         U.fn(CH, 'ChildDetails', 'parent_name_for_rcn', external_body=True, ensures=[('is_mapping', 'r == parent_name(*self, *name_in_child)')]),
         U.fn(CH, 'ChildDetails', 'is_issued', requires=[('km', km)], ensures=[('in_use', 'r == key_in_use(*self, *ki)')]),
+        # verified in unit c05_allres (exactly the keys in use under the class)
+        U.fn(CH, 'ChildDetails', 'issued', external_body=True, ensures=[
+            ('assumed', 'forall |k: KeyIdentifier| r@.contains(k) <==> key_in_use_under(*self, k, *parent_rcn)')]),
     ])
     U.impl('impl CertAuth', [
         U.fn(CA, 'CertAuth', 'get_child', requires=[('km', km)], ensures=[
@@ -57,7 +66,7 @@ impl ObjectName { pub fn from_key(_ki: &KeyIdentifier, _extension: &str) -> Self
         U.fn(CA, 'CertAuth', 'process_child_revoke_key', requires=[('km', km)], ensures=[
             ('positive_answer_has_effect', '''self.children@.contains_key(child_handle)
                 && self.resources@.contains_key(parent_name(self.children@[child_handle], req_rcn(request)))
-                && key_in_use(self.children@[child_handle], req_key(request))
+                && key_in_use_under(self.children@[child_handle], req_key(request), parent_name(self.children@[child_handle], req_rcn(request)))
                 ==> r is Ok && r->Ok_0@.len() == 2'''),
             ('effect_is_revocation_in_the_parents_class', '''r is Ok && r->Ok_0@.len() > 0 ==> r->Ok_0@.len() == 2
                 && r->Ok_0@[0] == (CertAuthEvent::ChildKeyRevoked { child: child_handle,
@@ -68,8 +77,8 @@ impl ObjectName { pub fn from_key(_ki: &KeyIdentifier, _extension: &str) -> Self
                 && r->Ok_0@[1]->ChildCertificatesUpdated_updates.issued@.len() == 0
                 && r->Ok_0@[1]->ChildCertificatesUpdated_updates.suspended@.len() == 0
                 && r->Ok_0@[1]->ChildCertificatesUpdated_updates.unsuspended@.len() == 0'''),
-            ('only_the_senders_own_key', '''r is Ok && r->Ok_0@.len() > 0 ==> self.children@.contains_key(child_handle)
-                && key_in_use(self.children@[child_handle], req_key(request))'''),
+            ('only_the_senders_own_key_in_the_named_class', '''r is Ok && r->Ok_0@.len() > 0 ==> self.children@.contains_key(child_handle)
+                && key_in_use_under(self.children@[child_handle], req_key(request), parent_name(self.children@[child_handle], req_rcn(request)))'''),
             ('no_effect_only_if_class_unknown', '''r is Ok && r->Ok_0@.len() == 0 && self.children@.contains_key(child_handle)
                 ==> !self.resources@.contains_key(parent_name(self.children@[child_handle], req_rcn(request)))'''),
         ]),
